@@ -183,3 +183,58 @@ MUTANTS["C17"] = [
     M("lazy_fills_runtime_cache", HW, "            # Store in runtime cache\n            if not lazy:\n                MachineModel._runtime_cache[self._path] = self._data", "            # Store in runtime cache\n            MachineModel._runtime_cache[self._path] = self._data", "R4"),
     M("runtime_cache_served", HW, "                self._data = MachineModel._runtime_cache[self._path]\n", "                self._data = MachineModel._runtime_cache[self._path]\n                return\n", "R5"),
 ]
+
+_ALIAS_NEW = '''                separated_forms = []
+                for entry in self._data["instruction_forms"]:
+                    if not isinstance(entry["name"], list):
+                        separated_forms.append(entry)
+                        continue
+                    for name in entry["name"]:
+                        new_entry = {"name": name}
+                        for k in [x for x in entry.keys() if x != "name"]:
+                            new_entry[k] = entry[k]
+                        separated_forms.append(new_entry)
+                self._data["instruction_forms"] = separated_forms
+'''
+_ALIAS_OLD = '''                for entry in [
+                    x for x in self._data["instruction_forms"] if isinstance(x["name"], list)
+                ]:
+                    for name in entry["name"]:
+                        new_entry = {"name": name}
+                        for k in [x for x in entry.keys() if x != "name"]:
+                            new_entry[k] = entry[k]
+                        self._data["instruction_forms"].append(new_entry)
+                    # remove old entry
+                    self._data["instruction_forms"].remove(entry)
+'''
+
+MUTANTS["C07"] = [
+    M("revert_alias_order", HW, _ALIAS_NEW, _ALIAS_OLD, "R2", "revert of the fix"),
+    M("no_arity_guard", HW, "        if len(operands) != len(i_operands):\n            return False\n", "", "R1"),
+    M("any_position", HW, "operands_ok = operands_ok and self._check_operands(i_operand, operand)", "operands_ok = operands_ok or self._check_operands(i_operand, operand)", "R1"),
+    M("wrong_position", HW, "            i_operand = i_operands[idx]\n", "            i_operand = i_operands[0]\n", "R1"),
+    M("last_match", HW, "            return next(\n                instruction_form\n                for instruction_form in name_matched_iforms\n", "            return next(\n                instruction_form\n                for instruction_form in reversed(name_matched_iforms)\n", "R2"),
+    M("lookup_lower", HW, 'name_matched_iforms = self._data["instruction_forms_dict"].get(name.upper(), [])', 'name_matched_iforms = self._data["instruction_forms_dict"].get(name.lower(), [])', "R3"),
+    M("index_front_insert", HW, 'self._data["instruction_forms_dict"][iform["name"]].append(new_iform)', 'self._data["instruction_forms_dict"][iform["name"]].insert(0, new_iform)', "R2"),
+    M("gas_fallback_dropped_in_isa", ISA, '        if (\n            isa_data is None\n            and self._isa == "x86"\n            and instruction_form.mnemonic[-1] in self.GAS_SUFFIXES\n        ):\n            # Check for instruction without GAS suffix\n            isa_data = self._isa_model.get_instruction(\n                instruction_form.mnemonic[:-1], instruction_form.operands\n            )\n        if isa_data is None and self._isa == "aarch64" and "." in instruction_form.mnemonic:\n            # Check for instruction without shape/cc suffix\n            suffix_start = instruction_form.mnemonic.index(".")\n            isa_data = self._isa_model.get_instruction(\n                instruction_form.mnemonic[:suffix_start], instruction_form.operands\n            )\n        operands = instruction_form.operands',
+      '        if isa_data is None and self._isa == "aarch64" and "." in instruction_form.mnemonic:\n            # Check for instruction without shape/cc suffix\n            suffix_start = instruction_form.mnemonic.index(".")\n            isa_data = self._isa_model.get_instruction(\n                instruction_form.mnemonic[:suffix_start], instruction_form.operands\n            )\n        operands = instruction_form.operands', "R4"),
+    M("suffix_slice_two", ARCH, "                        instruction_data_reg = self._machine_model.get_instruction(\n                            instruction_form.mnemonic[:-1], operands\n                        )", "                        instruction_data_reg = self._machine_model.get_instruction(\n                            instruction_form.mnemonic[:-2], operands\n                        )", "R4"),
+    M("dot_suffix_wrong_isa", ARCH, '                instruction_data is None\n                and self._isa == "aarch64"\n                and "." in instruction_form.mnemonic', '                instruction_data is None\n                and self._isa == "x86"\n                and "." in instruction_form.mnemonic', "R4"),
+    M("gas_suffixes_shorter", ARCH, '    GAS_SUFFIXES = "bswlqt"', '    GAS_SUFFIXES = "bswlq"', "R4"),
+    M("x86_imm_any_type", HW, '            return isinstance(i_operand, ImmediateOperand) and i_operand.imd_type == "int"', "            return isinstance(i_operand, ImmediateOperand)", "R6"),
+    M("x86_mem_matches_reg", HW, "        if isinstance(operand, MemoryOperand):\n            if not isinstance(i_operand, MemoryOperand):\n                return False\n            return self._is_x86_mem_type(i_operand, operand)", "        if isinstance(operand, MemoryOperand):\n            return self._is_x86_mem_type(i_operand, operand)", "R6"),
+    M("a64_prefix_mismatch_ok", HW, "        if reg.prefix != i_reg.prefix:\n            return False\n", "", "R6"),
+    M("a64_shape_wildcard_dropped", HW, "        # check for prefix and shape\n        if reg.prefix != i_reg.prefix:\n            return False\n        if reg.shape is not None:\n            if i_reg.shape is not None and (\n                reg.shape == i_reg.shape or self.WILDCARD in (reg.shape + i_reg.shape)\n            ):",
+      "        # check for prefix and shape\n        if reg.prefix != i_reg.prefix:\n            return False\n        if reg.shape is not None:\n            if i_reg.shape is not None and (\n                reg.shape == i_reg.shape\n            ):", "R6"),
+    M("x86_gpr_pattern_matches_vector", HW, "        else:\n            if reg.name.rstrip(string.digits).lower() == i_reg_name:\n                return True\n            if i_reg_name == \"gpr\":\n                return True\n        return False", "        if reg.name.rstrip(string.digits).lower() == i_reg_name:\n            return True\n        if i_reg_name == \"gpr\":\n            return True\n        return False", "R6"),
+    M("a64_mem_scale_or", HW, "                or (mem.scale != 1 and i_mem.scale != 1)\n            )\n            # check pre-indexing", "                or (mem.scale != 1 or i_mem.scale != 1)\n            )\n            # check pre-indexing", "R6"),
+    M("a64_mem_post_index_ignored", HW, "            # check post-indexing\n            and (\n                i_mem.post_indexed == self.WILDCARD\n                or mem.post_indexed == i_mem.post_indexed\n                or (isinstance(mem.post_indexed, dict) and i_mem.post_indexed)\n            )\n", "", "R6"),
+    M("x86_mem_index_wildcard_dropped", HW, "                mem.index == i_mem.index\n                or i_mem.index == self.WILDCARD\n                or (\n                    mem.index is not None\n                    # and mem.index.name != None", "                mem.index == i_mem.index\n                or (\n                    mem.index is not None\n                    # and mem.index.name != None", "R6"),
+    M("wildcard_matches_anything", HW, "            if isinstance(i_operand, RegisterOperand):\n                return True\n            else:\n                return False", "            return True", "R6"),
+    M("cond_wildcard_dropped", HW, "return (i_operand.ccode == self.WILDCARD) or (i_operand.ccode == operand.ccode)", "return i_operand.ccode == operand.ccode", "R6"),
+    M("refactor_demorgan", HW, "        if reg is None:\n            if i_reg is None:\n                return True\n            return False", "        if reg is None:\n            return i_reg is None", "SILENT", "behaviour-preserving rewrite"),
+    M("refactor_reorder_disjuncts", HW, "                mem.scale == i_mem.scale\n                or i_mem.scale == self.WILDCARD\n                or (mem.scale != 1 and i_mem.scale != 1)\n            )\n            # check pre-indexing", "                i_mem.scale == self.WILDCARD\n                or (i_mem.scale != 1 and mem.scale != 1)\n                or i_mem.scale == mem.scale\n            )\n            # check pre-indexing", "SILENT", "behaviour-preserving rewrite"),
+    M("data_pattern_digit", "osaca/data/zen1.yml", "  - class: register\n    name: xmm\n", "  - class: register\n    name: xmm0\n", "D1", first=True),
+    M("data_prefix_unknown", "osaca/data/n1.yml", "    prefix: x\n", "    prefix: xx\n", "D1", first=True),
+    M("data_scale_none", "osaca/data/tx2.yml", "    scale: 1\n", "    scale: ~\n", "D1", first=True),
+]
